@@ -523,6 +523,7 @@ inline void run_target_case(const Target& t, uint64_t variant, Rng& r) {
   uint32_t nhang[2] = {0, 0};
   const uint32_t HANG_CAP = 4;
   uint64_t sigacc = mix64(h, img.size());
+  for (char c : t.path) sigacc = mix64(sigacc, static_cast<uint8_t>(c));
   auto process_recs = [&](const ChildEnd& ce) {
     // oracle verdicts recorded by the child
     for (uint32_t k = 0; k < s->nrec && k < MAXREC; ++k) {
